@@ -626,11 +626,13 @@ func (fa *FuncAnalysis) capturedDefinition(fv *ssa.FreeVar) *Term {
 		return nil
 	}
 	var cell *ssa.Alloc
+	var made *ssa.MakeClosure
 	n := 0
 	for _, b := range par.Blocks {
 		for _, in := range b.Instrs {
 			if mc, ok := in.(*ssa.MakeClosure); ok && mc.Fn == ssa.Value(fa.Fn) && idx < len(mc.Bindings) {
 				n++
+				made = mc
 				cell, _ = mc.Bindings[idx].(*ssa.Alloc)
 			}
 		}
@@ -669,6 +671,10 @@ func (fa *FuncAnalysis) capturedDefinition(fv *ssa.FreeVar) *Term {
 	}
 	pfa := fa.e.FA(par)
 	if pfa == nil || pfa == fa {
+		return nil
+	}
+	// the definition comes before the closure exists (otherwise the closure could run with the zero value)
+	if made == nil || !pfa.Dominates(def, made) {
 		return nil
 	}
 	return pfa.Term(def.Val)
